@@ -3,14 +3,15 @@
 #   1 confirms every seed (tools/seed_verify.py; at most 3 pytest suites at a time: more exhausts memory and makes pass sets differ)
 #   2 runs the property's check against every confirmed seed, one after the other (they share lean/Generated and the driver)
 # Never commit in /verif or run ./check while step 2 is in flight.
+ROOT="$(cd "$(dirname "$0")/.." && pwd)"      # the copy of /verif this script lives in (a wave may run from a scratch copy)
 src=$1; k=$2; shift 2
 props=${@:-$(ls $src | grep '^C[0-9][0-9]$')}
 mkdir -p /tmp/seedwave_logs
 for p in $props; do for i in 1 2; do [ -d $src/$p/SEED_$i ] && echo "$p $i"; done; done | \
-  xargs -P 3 -L 1 bash -c 'python3 /verif/tools/seed_verify.py '$src'/$0/SEED_$1 $0-$(('$k'+$1-1)) > /tmp/seedwave_logs/verify_$0_$1.log 2>&1'
+  xargs -P 3 -L 1 bash -c 'python3 '$ROOT'/tools/seed_verify.py '$src'/$0/SEED_$1 $0-$(('$k'+$1-1)) > /tmp/seedwave_logs/verify_$0_$1.log 2>&1'
 for p in $props; do for i in 1 2; do
   n=$p-$((k+i-1))
   echo "=== $n"
-  if [ -d /verif/seeded/$n ]; then python3 /verif/tools/seed_run.py $n 2>&1 | grep -E '"exit"|VIOLATION|"what"' | head -4
+  if [ -d $ROOT/seeded/$n ]; then python3 $ROOT/tools/seed_run.py $n 2>&1 | grep -E '"exit"|VIOLATION|"what"' | head -4
   else echo " not confirmed: see /tmp/seedwave_logs/verify_${p}_$i.log"; fi
 done; done
